@@ -19,4 +19,12 @@ DoReset == nctl < MaxCtl /\ CtlReset
 Next == DoStart \/ DoPause \/ DoResume \/ DoStop \/ DoReset \/ Tick \/ LeafCompletes \/ ActionTimeout \/ Deliver
 Spec == Init /\ [][Next]_vars
 Bound == \A n \in Nodes : S.gen[n] <= MaxGen
+
+(* Vacuity guard (TLC's -coverage is unusably slow on the recursive operators of ActionTree): with -workers 1 the   *)
+(* constraint Mark records in TLC registers which kinds of step occurred; the postcondition demands all of them.  *)
+ActNames == <<"start", "pause", "resume", "stop", "reset", "tick", "fire", "timeout", "deliver">>
+ASSUME \A i \in 1..Len(ActNames) : TLCSet(100 + i, FALSE)
+Mark == IF lastop = "init" THEN TRUE
+        ELSE TLCSet(100 + (CHOOSE i \in 1..Len(ActNames) : ActNames[i] = lastop), TRUE)
+AllActionsTaken == \A i \in 1..Len(ActNames) : IF TLCGet(100 + i) THEN TRUE ELSE PrintT(<<"NEVER-TAKEN", ActNames[i]>>) /\ FALSE
 =============================================================================
